@@ -276,6 +276,12 @@ func (db *Database) SearchUniversal(query string, options SearchOptions) []Searc
 		options.Limit = 10
 	}
 
+	// Normalise the query exactly as the result cache does when it builds its key
+	// (lower-case, trimmed), so requests that share a cache entry have the same answer
+	// on every path - including the typo fallback, which matches the raw query text,
+	// and letters such as U+212A that only become ASCII once lower-cased.
+	query = strings.ToLower(strings.TrimSpace(query))
+
 	terms := normalizeAndTokenize(query)
 	var pq *nlp.ProcessedQuery
 
